@@ -330,6 +330,9 @@ type Memory struct {
 	syncMx sync.RWMutex
 	// writes tracks forked DB writes, so Sync can wait for them.
 	writes sync.WaitGroup
+	// lastWrite is closed when the latest forked write is done (writes are
+	// forked, but have to hit the DB in the order they were queued).
+	lastWrite chan struct{}
 	// nextId sequence ID
 	nextId atomic.Uint64
 	// garbage collector lock (read: query, write: GC)
@@ -702,8 +705,14 @@ func (m *Memory) writeDb(rLocked bool) {
 
 	// fork
 	m.writes.Add(1)
+	prevWrite, thisWrite := m.lastWrite, make(chan struct{})
+	m.lastWrite = thisWrite
 	go func() {
 		defer m.writes.Done()
+		defer close(thisWrite)
+		if prevWrite != nil {
+			<-prevWrite
+		}
 		if rLocked {
 			defer m.syncMx.RUnlock()
 		}
